@@ -2,7 +2,7 @@
    restart, signal handler, wait status - are decided by the fault enumeration of props/c07.py).
    Only property theorems and their assumptions. *)
 From Coq Require Import List NArith Bool String.
-From Quill Require Import Queue.BQDefs Backend.BEDefs Backend.BEExec Backend.BEInv Backend.OrdSim Backend.BEExit TieC07.
+From Quill Require Import Queue.BQDefs Backend.BEDefs Backend.BEExec Backend.BEInv Backend.OrdSim Backend.BEExit Backend.BEUnreg TieC07.
 From Quill Require TieCtx.
 Import ListNotations.
 Local Open Scope N_scope.
@@ -30,29 +30,33 @@ Print Assumptions C07_tie_ctx_removal_guard.
 
 (* every configuration, every history before the stop (any interleaving of frontend and backend micro-steps,
    threads that have exited included), every pace of the clock while the drain loop spins: when the loop
-   leaves (through its only exit, the "everything is empty" branch), no registered thread context holds a
-   queued record or a buffered event, everything each of them committed before the stop has been processed
-   (dispatched to its sinks, C03), nothing was committed by the drain itself, and the last thing the backend
-   did was to flush every active sink. (A context that is no longer registered was drained before its removal:
-   the removal guard of C03.) Partial: that the loop does leave is not proved here - it needs real time to
+   leaves (through its only exit, the "everything is empty" branch), no thread - registered, never registered,
+   or exited with its context already removed - holds a queued record or a buffered event, everything every
+   thread committed before the stop has been processed (dispatched to its sinks, C03), nothing was committed
+   by the drain itself, and the last thing the backend did was to flush every active sink. Partial: that the loop does leave is not proved here - it needs real time to
    pass the grace period; the fault enumeration observes it (no child hangs). *)
 Theorem C07_stop_drains_partial : forall K s0 ops ticks s',
   (forall t, fresh_thr (th s0 t) /\ issued s0 t = [] /\ delivered s0 t = []) ->
   (newflag s0 = false -> cache s0 = registered s0) -> pos_ops ops ->
   let s := run K s0 ops in
   exit_drain K ticks s = (s', true) ->
-  (forall t, In t (registered s') ->
-     qev (th s' t) = [] /\ tbuf (th s' t) = [] /\ delivered s' t = issued s t) /\
+  (forall t, qev (th s' t) = [] /\ tbuf (th s' t) = [] /\ delivered s' t = issued s t) /\
   exists sa, s' = flush_sinks sa /\ plog sa = plog s'.
 Proof.
   intros K s0 ops ticks s' H0 Hf Hp s Hd.
   assert (G0 : Good K s0).
   { split; [intro u; destruct (H0 u) as ((v & ->) & -> & ->); apply TInv_fresh|intros u e; destruct (H0 u) as ((v & ->) & _); discriminate]. }
+  assert (P0 : PU s0) by (intro t; right; destruct (H0 t) as ((v & ->) & _); split; reflexivity).
   pose proof (run_good K ops Hp s0 G0) as G. pose proof (run_flag K ops s0 Hf) as Fl.
-  destruct (exit_drain_spec K ticks _ _ G Fl Hd) as (_ & Hall & Hfl).
-  split; [|exact Hfl]. intros t Ht. destruct (Hall t Ht) as (A & B & Cc). split; [exact A|]. split; [exact B|].
-  rewrite <- Cc. pose proof (exit_drain_iss K ticks (run K s0 ops)) as Hi. fold s in Hi. rewrite Hd in Hi. cbn [fst] in Hi.
-  now rewrite Hi.
+  pose proof (exit_drain_pu K ticks _ (run_pu K ops s0 P0)) as Pu. fold s in Pu. rewrite Hd in Pu. cbn [fst] in Pu.
+  destruct (exit_drain_spec K ticks _ _ G Fl Hd) as (G' & Hall & Hfl).
+  split; [|exact Hfl]. intros t.
+  pose proof (exit_drain_iss K ticks (run K s0 ops)) as Hi. fold s in Hi. rewrite Hd in Hi. cbn [fst] in Hi.
+  destruct (Pu t) as [Ht|[A B]].
+  - destruct (Hall t Ht) as (A & B & Cc). split; [exact A|]. split; [exact B|]. rewrite <- Cc. now rewrite Hi.
+  - split; [exact A|]. split; [exact B|].
+    pose proof (t_cons _ _ _ _ (proj1 G' t)) as Hcons. rewrite A, B in Hcons. cbn in Hcons. rewrite app_nil_r in Hcons.
+    rewrite <- Hcons. now rewrite Hi.
 Qed.
 Print Assumptions C07_stop_drains_partial.
 
